@@ -29,7 +29,7 @@ for pid in ids:
                 if f.startswith('out_') and f.endswith('.txt'): os.remove(os.path.join(root, f))
         files = sorted(set(re.findall(r'^diff --git a/(\S+)', open(src + '/patch.diff').read(), re.M)))
         meta = {"name": name, "property": pid, "property_title": titles[pid],
-                "origin": "fresh sub-agent given only the property text (rounds 2 and 3: plus a one-line list of the earlier ideas to avoid) and a scratch worktree of /repo at %s (nothing from /verif)" % base,
+                "origin": "fresh sub-agent given only the property text (rounds 2 and later: plus a one-line list of the earlier ideas to avoid) and a scratch worktree of /repo at %s (nothing from /verif)" % base,
                 "files_changed": files, "what_it_needs_to_manifest": "see NOTES.md (section on trigger)",
                 "confirmed_by_me": {"commands": ["tools/confirm_mutant.sh %s %s  (scratch worktree: git apply; go build ./...; go test -vet=off -count=1 ./...; demo with the patch; git checkout; demo without)" % (pid, sk)],
                                     "result": "patch applies, library builds, existing suite passes, demo fails with the patch and passes without it"},
